@@ -49,8 +49,25 @@ EXTRA_SHAPES = [
 ]
 
 
+# path-argument spellings outside Cli.tla's Init: --output naming the source itself (directly / through a symlink), and a target that the
+# arguments reach twice (the same file named twice in different spellings; a directory and a file inside it)
+PATH_SHAPES = []
+for _c in ('shrinks', 'grows', 'equal', 'invalid', 'legacy', 'empty', 'undecodable', 'nonidem'):
+    PATH_SHAPES.append({'reach': ['named'], 'class': [_c], 'shape': 'one_file', 'mode': 'output', 'self_output': 'direct'})
+    PATH_SHAPES.append({'reach': ['named'], 'class': [_c], 'shape': 'one_file', 'mode': 'output', 'self_output': 'symlink'})
+for _c in ('shrinks', 'nonidem', 'grows', 'invalid'):
+    PATH_SHAPES.append({'reach': ['named', 'named'], 'class': [_c, 'shrinks'], 'shape': 'many', 'mode': 'in_place', 'twice': 'named'})
+    PATH_SHAPES.append({'reach': ['dir_py', 'dir_py'], 'class': [_c, 'shrinks'], 'shape': 'dir', 'mode': 'in_place', 'twice': 'dir+file'})
+    PATH_SHAPES.append({'reach': ['dir_py', 'dir_py'], 'class': [_c, 'shrinks'], 'shape': 'dir', 'mode': 'in_place', 'twice': 'dir+dir'})
+
+
 def extra_configs():
     out = []
+    for k, c in enumerate(PATH_SHAPES):
+        for force in (False, True):
+            d = dict(c)
+            d['force'] = force
+            out.append(('p-%d-%d' % (k, int(force)), d))
     for k, c in enumerate(EXTRA_SHAPES):
         for force in (False, True):
             d = dict(c)
@@ -75,7 +92,7 @@ def run_and_judge(rep, cfgs, family, seed, tag):
         if not clause.startswith(family):
             continue
         c = cfgby[rid]
-        key = '%s|%s|%s|force=%s|%s' % (c['shape'], c['mode'], ','.join('%s:%s' % x for x in zip(c['reach'], c['class'])), c['force'], clause)
+        key = '%s%s%s|%s|%s|force=%s|%s' % (c['shape'], '+self-output-' + c['self_output'] if c.get('self_output') else '', '+twice-' + c['twice'] if c.get('twice') else '', c['mode'], ','.join('%s:%s' % x for x in zip(c['reach'], c['class'])), c['force'], clause)
         rep.violation(key=key, clause=clause, what='configuration %s -> exit=%s %s' % (c, byid[rid]['exit'], byid[rid].get('exc', '')),
                       replay={'kind': 'cli', 'check': '_cli', 'cfg': c, 'observed': byid[rid]})
     for o in obs[:3]:
